@@ -236,6 +236,38 @@ def run(ck):
         for b in CppScalar:
             add(f'(SFits {ty_term(a)} {ty_term(b)}, (RB11 {cb(storage.scalar_fits_in(a, b))}))', 'scalar_fits_in', ('fits', a.name, b.name))
 
+    # the counter-type rule of constant-bound range loops: emitter._range_counter_scalar (called on a stub that reads the
+    # literal bounds) vs the model, whose theorem C11_counter_no_wrap says no counter value -- overshoot included -- wraps
+    from fpy2.ast.fpyast import Range3, Integer
+    from fpy2.backend.cpp.emitter import CppEmitter
+
+    class _Stub:
+        def _concrete_int_of(self, e):
+            return e.val
+
+    triples = set()
+    for B in (127, 128, 255, 32767, 32768, 65535, 2 ** 31 - 1, 2 ** 31, 2 ** 32 - 1, 2 ** 63 - 1):
+        for step in (1, 2, 3, 50, 10000, max(1, B // 3), max(1, B // 2 + 1)):
+            for n in (1, 2, 3):
+                for start in (0, 1, -1, 5):
+                    last = start + (n - 1) * step
+                    for stop in (last + 1, last + step, last + max(1, step // 2)):
+                        triples.add((start, stop, step))
+                        triples.add((-start, -stop, -step))
+    triples |= {(0, 120, 50), (0, 32000, 10000), (0, 120, 40), (3, 100, 7), (0, 0, 1), (5, 0, 1), (0, 5, -1), (100, 127, 20)}
+    for _ in range(600 if thorough else 200):
+        step = rng.choice([1, -1, 2, -3, 7, 50, -50, 1000, 10000, -30000, 2 ** 20, 2 ** 30, -(2 ** 30)])
+        start = rng.choice([0, 0, 1, -1, rng.randint(-200, 200), rng.randint(-40000, 40000)])
+        stop = start + step * rng.randint(0, 6) + rng.randint(-abs(step), abs(step))
+        triples.add((start, stop, step))
+    for (a, b, c) in sorted(triples):
+        try:
+            t = CppEmitter._range_counter_scalar(_Stub(), Range3(None, Integer(a, None), Integer(b, None), Integer(c, None), None))
+            res = f'(RTy (Some {ty_term(t)}))' if t is not None else '(RTy None)'
+        except storage.StorageSelectionError:
+            res = '(RTy None)'
+        add(f'(SCounter {cz(a)} {cz(b)} {cz(c)}, {res})', 'range_counter_scalar', ('counter', a, b, c))
+
     ck.rule = ('storage decisions: formats of %d contexts, the formats the abstract arithmetic derives from pairs of them, seeded random '
                'abstract formats, literal sets; all 121 scalar pairs; differential: distinct (family, program, option set, g++ level, '
                'argument vector)' % len(ctxs))
